@@ -97,6 +97,16 @@ func (x *Xlat) havocRegion(st *State, key string) {
 	if ax := regionAxiom(key, v); ax != nil {
 		x.ctx.constAxioms[v.Op] = append(x.ctx.constAxioms[v.Op], ax)
 	}
+	if key == allocKey || key == arrAllocKey {
+		// allocation only grows
+		before := cur
+		if !ok {
+			before = x.initial(key, s)
+		}
+		ks, _, _ := splitArrSort(s)
+		b := Const("a!", ks)
+		x.ctx.constAxioms[v.Op] = append(x.ctx.constAxioms[v.Op], Forall([]Bind{{"a!", ks}}, Imp(Sel(before, b), Sel(v, b))))
+	}
 	st.env[key] = v
 }
 
@@ -184,6 +194,11 @@ func (x *Xlat) evalCall(st *State, fr *Frame, out *Outcomes, ce *ast.CallExpr) [
 		}
 	}
 	if fi, ok := x.prog.ByObj[callee]; ok {
+		// generic instantiation: bind the callee's type parameters while its body is inlined
+		if targs := x.typeArgsOf(fr, ce, recv, sig); len(targs) > 0 {
+			x.tm.subst = append(x.tm.subst, targs)
+			defer func() { x.tm.subst = x.tm.subst[:len(x.tm.subst)-1] }()
+		}
 		var args []Arg
 		if len(embeddedPath) > 0 {
 			// promoted method: the receiver is reached through embedded fields
@@ -374,7 +389,7 @@ func (x *Xlat) evalArgsSig(st *State, fr *Frame, out *Outcomes, argExprs []ast.E
 				for i, t := range tail {
 					inner = Sto(inner, IntLit(int64(i)), x.coerce(t.v, et))
 				}
-				x.set(st, key, Sto(h, a, inner))
+				x.setElems(st, key, es, h, Sto(h, a, inner), touchedArr(a))
 				n := IntLit(int64(len(tail)))
 				args = append(args, Arg{v: MkSlice(a, IntLit(0), n, n)})
 			}
@@ -480,8 +495,12 @@ func (x *Xlat) builtin(st *State, fr *Frame, out *Outcomes, ce *ast.CallExpr, na
 			key := elemsKey(es)
 			h := x.get(st, key, elemsSort(es))
 			zero := App("(as const "+ArrSort(SInt, es)+")", ArrSort(SInt, es), x.tm.Zero(u.Elem()))
-			x.set(st, key, Sto(h, a, zero))
-			return []*Term{MkSlice(a, IntLit(0), n, c)}
+			h2 := x.setElems(st, key, es, h, Sto(h, a, zero), touchedArr(a))
+			res := MkSlice(a, IntLit(0), n, c)
+			ib := Const("i!", SInt)
+			lhs := x.atTerm(h2, res, ib, es)
+			st.assume(Forall([]Bind{{"i!", SInt}}, Eq(lhs, x.tm.Zero(u.Elem())), []*Term{lhs}))
+			return []*Term{res}
 		case *types.Map:
 			m := x.allocRef(st, "map")
 			x.initMap(st, m, u)
@@ -562,14 +581,27 @@ func (x *Xlat) appendOne(st *State, s *Term, v *Term, et types.Type) *Term {
 	i := Const("i!", SInt)
 	st.assume(Forall([]Bind{{"i!", SInt}}, Imp(And(App("<=", SBool, IntLit(0), i), App("<", SBool, i, SLen(s))),
 		Eq(Sel(fresh, i), Sel(Sel(h, SArr(s)), App("+", SInt, SOff(s), i))))))
+	if len(v.Args) > 0 {
+		v = x.ctx.Define("apv", v)
+	}
 	hInPlace := Sto(h, SArr(s), Sto(Sel(h, SArr(s)), App("+", SInt, SOff(s), SLen(s)), v))
 	hFresh := Sto(h, a, Sto(fresh, SLen(s), v))
-	x.set(st, key, Ite(inPlace, hInPlace, hFresh))
+	h2 := x.ctx.Define(key, Ite(inPlace, hInPlace, hFresh))
+	st.env[key] = h2
 	x.set(st, arrAllocKey, Ite(inPlace, al, Sto(al, a, TTrue)))
-	res := Ite(inPlace,
+	res := x.ctx.Define("app", Ite(inPlace,
 		MkSlice(SArr(s), SOff(s), App("+", SInt, SLen(s), IntLit(1)), SCap(s)),
-		MkSlice(a, IntLit(0), App("+", SInt, SLen(s), IntLit(1)), newcap))
-	return x.ctx.Define("app", res)
+		MkSlice(a, IntLit(0), App("+", SInt, SLen(s), IntLit(1)), newcap)))
+	// derived facts over at(), implied by the array-level definition above; they let E-matching carry element facts across the append
+	lhs := x.atTerm(h2, res, i, es)
+	st.assume(Forall([]Bind{{"i!", SInt}}, Imp(And(App("<=", SBool, IntLit(0), i), App("<", SBool, i, SLen(s))), Eq(lhs, x.atTerm(h, s, i, es))), []*Term{lhs}))
+	st.assume(Eq(x.atTerm(h2, res, SLen(s), es), v))
+	tb, jb := Const("t!", SSlice), Const("j!", SInt)
+	lhs2 := x.atTerm(h2, tb, jb, es)
+	touched := Or(And(inPlace, Eq(SArr(tb), SArr(s)), Eq(App("+", SInt, SOff(tb), jb), App("+", SInt, SOff(s), SLen(s)))),
+		And(Not(inPlace), Eq(SArr(tb), a)))
+	st.assume(Forall([]Bind{{"t!", SSlice}, {"j!", SInt}}, Imp(Not(touched), Eq(lhs2, x.atTerm(h, tb, jb, es))), []*Term{lhs2}))
+	return res
 }
 
 // appendSlice models append(s, o...).
@@ -602,7 +634,11 @@ func (x *Xlat) appendSlice(st *State, s, o *Term, et types.Type) *Term {
 	// in place: everything outside the written window is unchanged
 	st.assume(Imp(inPlace, Forall([]Bind{{"i!", SInt}}, Imp(Or(App("<", SBool, i, App("+", SInt, SOff(s), SLen(s))), App(">=", SBool, i, App("+", SInt, SOff(s), total))),
 		Eq(Sel(resArr, i), Sel(oldInner, i))))))
-	x.set(st, key, Ite(inPlace, Sto(h, SArr(s), resArr), Sto(h, a, resArr)))
+	x.setElems(st, key, es, h, Ite(inPlace, Sto(h, SArr(s), resArr), Sto(h, a, resArr)), func(t, j *Term) *Term {
+		p := App("+", SInt, SOff(t), j)
+		return Or(And(inPlace, Eq(SArr(t), SArr(s)), App(">=", SBool, p, App("+", SInt, SOff(s), SLen(s))), App("<", SBool, p, App("+", SInt, SOff(s), total))),
+			And(Not(inPlace), Eq(SArr(t), a)))
+	})
 	x.set(st, arrAllocKey, Ite(inPlace, al, Sto(al, a, TTrue)))
 	res := Ite(inPlace, MkSlice(SArr(s), SOff(s), total, SCap(s)), MkSlice(a, IntLit(0), total, newcap))
 	return x.ctx.Define("app", res)
@@ -620,7 +656,7 @@ func (x *Xlat) copyElems(st *State, dst, src, n *Term, et types.Type) {
 		Eq(Sel(resArr, App("+", SInt, SOff(dst), i)), Sel(srcInner, App("+", SInt, SOff(src), i))))))
 	st.assume(Forall([]Bind{{"i!", SInt}}, Imp(Or(App("<", SBool, i, SOff(dst)), App(">=", SBool, i, App("+", SInt, SOff(dst), n))),
 		Eq(Sel(resArr, i), Sel(oldInner, i)))))
-	x.set(st, key, Sto(h, SArr(dst), resArr))
+	x.setElems(st, key, es, h, Sto(h, SArr(dst), resArr), touchedWindow(dst, n))
 }
 
 // ---------------------------------------------------------------------------
@@ -862,7 +898,7 @@ func (x *Xlat) havocClosureEffects(st *State, c *Closure) {
 	for _, k := range sortedKeys(ef.regions) {
 		x.havocRegion(st, k)
 	}
-	for v := range ef.assigned {
+	for _, v := range sortedVars(ef.assigned) {
 		if k, _, ok := c.frame.lookupVar(v); ok {
 			if cur, ok := st.env[k]; ok {
 				st.env[k] = x.freshTyped(st, k, v.Type())
@@ -960,7 +996,8 @@ func (x *Xlat) callContract(st *State, fr *Frame, out *Outcomes, fi *FuncInfo, a
 		}
 	}
 	defer func() {
-		for wk, before := range gwBefore {
+		for _, wk := range sortedKeys(gwBefore) {
+			before := gwBefore[wk]
 			st.env[wk] = Or(before, st.env[wk])
 		}
 	}()
@@ -1120,4 +1157,68 @@ func (x *Xlat) callIsPure(fr *Frame, ce *ast.CallExpr) bool {
 		return true
 	}
 	return false
+}
+
+// typeArgsOf maps the type parameters of a generic callee to the type arguments of this call.
+func (x *Xlat) typeArgsOf(fr *Frame, ce *ast.CallExpr, recv ast.Expr, sig *types.Signature) map[*types.TypeParam]types.Type {
+	info := fr.info()
+	out := map[*types.TypeParam]types.Type{}
+	if tps := sig.TypeParams(); tps != nil && tps.Len() > 0 {
+		var id *ast.Ident
+		switch f := ast.Unparen(ce.Fun).(type) {
+		case *ast.Ident:
+			id = f
+		case *ast.SelectorExpr:
+			id = f.Sel
+		case *ast.IndexExpr:
+			switch g := ast.Unparen(f.X).(type) {
+			case *ast.Ident:
+				id = g
+			case *ast.SelectorExpr:
+				id = g.Sel
+			}
+		}
+		if id != nil {
+			if inst, ok := info.Instances[id]; ok && inst.TypeArgs != nil {
+				for i := 0; i < tps.Len() && i < inst.TypeArgs.Len(); i++ {
+					out[tps.At(i)] = inst.TypeArgs.At(i)
+				}
+			}
+		}
+	}
+	if rtps := sig.RecvTypeParams(); rtps != nil && rtps.Len() > 0 && recv != nil {
+		rt := types.Unalias(info.TypeOf(recv))
+		if p, ok := rt.Underlying().(*types.Pointer); ok {
+			rt = types.Unalias(p.Elem())
+		}
+		rt = types.Unalias(x.tm.resolve(rt))
+		if n, ok := rt.(*types.Named); ok && n.TypeArgs() != nil {
+			for i := 0; i < rtps.Len() && i < n.TypeArgs().Len(); i++ {
+				out[rtps.At(i)] = x.tm.resolve(n.TypeArgs().At(i))
+			}
+		}
+	}
+	return out
+}
+
+// setElems installs a new elements heap and adds the derived frame fact over at():
+// every element not touched by the write keeps its value. touched(t, j) describes the written window.
+func (x *Xlat) setElems(st *State, key string, es Sort, hOld, hNew *Term, touched func(t, j *Term) *Term) *Term {
+	h2 := x.ctx.Define(key, hNew)
+	st.env[key] = h2
+	tb, jb := Const("t!", SSlice), Const("j!", SInt)
+	lhs := x.atTerm(h2, tb, jb, es)
+	st.assume(Forall([]Bind{{"t!", SSlice}, {"j!", SInt}}, Imp(Not(touched(tb, jb)), Eq(lhs, x.atTerm(hOld, tb, jb, es))), []*Term{lhs}))
+	return h2
+}
+
+func touchedArr(a *Term) func(t, j *Term) *Term {
+	return func(t, j *Term) *Term { return Eq(SArr(t), a) }
+}
+
+func touchedWindow(s, n *Term) func(t, j *Term) *Term {
+	return func(t, j *Term) *Term {
+		p := App("+", SInt, SOff(t), j)
+		return And(Eq(SArr(t), SArr(s)), App(">=", SBool, p, SOff(s)), App("<", SBool, p, App("+", SInt, SOff(s), n)))
+	}
 }
